@@ -236,6 +236,7 @@ def infinity_stream(ctx):
 def explore(ctx):
     _explore0(ctx)
     infinity_stream(ctx)
+    cc.infinity_tie_stream(ctx, 200 if ctx.quick else 2000, 'c01_inf_tie')
     huge_integer_threshold_stream(ctx)
     rng = ctx.rng('floatthr')
     for arr, t, kind in float_threshold_cases(rng, ctx.quick) + int_threshold_cases(rng, ctx.quick) + bigint_threshold_cases(rng, ctx.quick):
